@@ -115,7 +115,35 @@ type fmtFlags struct {
 func (ex *Exec) sprintf(fr *frame, format value, args []value) value {
 	f, ok := format.(string)
 	if !ok {
-		ex.inconclusive("fmt: symbolic format string")
+		// symbolic text used as a format (Client.Auth does this): octets that
+		// cannot be '%' are literals; a feasible '%' is outside the encoding.
+		fo := ex.strOctets(format)
+		var lit []value
+		conc := make([]byte, len(fo))
+		for i, o := range fo {
+			if u, isC := o.(uint64); isC {
+				conc[i] = byte(u)
+				continue
+			}
+			if ex.branch(ex.eqv(nil, o, uint64('%'))) {
+				ex.inconclusive("fmt: symbolic '%' in format string")
+			}
+			conc[i] = 0
+		}
+		hasVerb := false
+		for _, b := range conc {
+			if b == '%' {
+				hasVerb = true
+			}
+		}
+		if hasVerb {
+			ex.inconclusive("fmt: format string mixes verbs with symbolic text")
+		}
+		lit = append(lit, fo...)
+		if len(args) > 0 {
+			ex.inconclusive("fmt: symbolic format string with arguments")
+		}
+		return mkStr(lit)
 	}
 	var out []value
 	emit := func(s string) {
